@@ -114,7 +114,7 @@ func drawChunks(t *rapid.T, label string, size int) []int {
 	return c
 }
 
-var plainKinds = []string{"write-msg", "writer", "writer", "writer-fail", "ownbuf", "cipher-writer", "cipher-reader", "readfrom", "control-writer", "mask-helpers", "shared-send", "send-close", "read-data", "read-msg", "reader", "ping", "ping", "pong", "compiled"}
+var plainKinds = []string{"write-msg", "writer", "writer", "writer-fail", "ownbuf", "cipher-writer", "cipher-reader", "readfrom", "control-writer", "mask-helpers", "reject", "shared-send", "send-close", "read-data", "read-msg", "reader", "ping", "ping", "pong", "compiled"}
 var flateKinds = []string{"flate-send", "flate-recv", "flate-writer", "flate-reader"}
 
 // drawTemplate draws the shape of a session. light = layer 2 (many sessions per case).
@@ -1184,6 +1184,65 @@ func (s *session) stepMaskHelpers(o op) {
 	s.expect(good, "MaskFrame/MaskFrameWith + WriteFrame, ReadFrame + UnmaskFrame do not round-trip the %d-byte payload", len(p))
 }
 
+// --- handshakes rejected with an error value all sessions share -------------------
+
+// sharedRejections are application-wide rejection errors (the natural way to
+// use ws.RejectConnectionError: var errForbidden = ws.RejectConnectionError(...)),
+// returned by the callbacks of every session's Upgrader. Read-only for everybody.
+var sharedRejections = []error{
+	ws.RejectConnectionError(ws.RejectionReason("nope")),
+	ws.RejectConnectionError(),
+	ws.RejectConnectionError(ws.RejectionStatus(403), ws.RejectionReason("forbidden")),
+	ws.RejectConnectionError(ws.RejectionReason("teapot"), ws.RejectionHeader(ws.HandshakeHeaderString("X-Why: shared\r\n"))),
+	ws.RejectConnectionError(ws.RejectionStatus(429)),
+}
+
+func renderRejection(e error) string {
+	r := e.(*ws.ConnectionRejectedError)
+	return fmt.Sprintf("{status=%d error=%q}", r.StatusCode(), r.Error())
+}
+
+func renderSharedRejections() string {
+	var parts []string
+	for _, e := range sharedRejections {
+		parts = append(parts, renderRejection(e))
+	}
+	return strings.Join(parts, " ")
+}
+
+// stepReject: an upgrade that a callback of the Upgrader rejects with one of the shared errors.
+func (s *session) stepReject(o op) {
+	shared := sharedRejections[o.spec.Which%len(sharedRejections)]
+	before := renderRejection(shared)
+	u := ws.Upgrader{ReadBufferSize: s.tpl.HS.BufSize, WriteBufferSize: s.tpl.HS.BufSize}
+	via := ""
+	switch (o.spec.Which / len(sharedRejections)) % 4 {
+	case 0:
+		via = "OnRequest"
+		u.OnRequest = func([]byte) error { return shared }
+	case 1:
+		via = "OnHost"
+		u.OnHost = func([]byte) error { return shared }
+	case 2:
+		via = "OnHeader"
+		u.OnHeader = func(k, v []byte) error { return shared }
+	default:
+		via = "OnBeforeUpgrade"
+		u.OnBeforeUpgrade = func() (ws.HandshakeHeader, error) { return nil, shared }
+	}
+	rec := tx.NewRec()
+	hs, err := u.Upgrade(tx.RW{Reader: s.src(s.request(), o.spec.Chunks), Writer: s.dst(rec)})
+	resp := string(rec.Bytes())
+	head, body := resp, ""
+	if i := strings.Index(resp, "\r\n\r\n"); i >= 0 {
+		head, body = resp[:i+4], resp[i+4:]
+	}
+	after := renderRejection(shared)
+	s.logf("%s rejection#%d same-error=%t hs={%s} response={%s} body=%s shared-before=%s shared-after=%s", via, o.spec.Which%len(sharedRejections), err == shared, renderHS(hs), renderHead(head), digest([]byte(body)), before, after)
+	s.expect(err == shared && !strings.HasPrefix(head, "HTTP/1.1 101"), "the upgrade rejected by %s returned %v and answered %q", via, err, strings.SplitN(head, "\r\n", 2)[0])
+	s.expect(before == after, "the rejection error value shared by all sessions changed during Upgrade: %s -> %s", before, after)
+}
+
 // stepSendClose builds a close frame the documented way and sends it; the
 // peer decodes status code and reason from what arrived.
 func (s *session) stepSendClose(o op) {
@@ -1775,6 +1834,8 @@ func (s *session) step() {
 			s.stepControlWriter2(o)
 		case "mask-helpers":
 			s.stepMaskHelpers(o)
+		case "reject":
+			s.stepReject(o)
 		case "shared-send":
 			s.stepSharedSend(o)
 		case "send-close":
